@@ -609,6 +609,8 @@ def gen_err(rng, eid, msg=None):
     if k in (2, 3):
         text = rnd_text(rng, rng.randint(1, 30), 'ab  \n\n\r@{},=\x0c ')
         pos = rng.randrange(len(text))
+        while text[pos - 1:pos] == '\r' and text[pos:pos + 1] == '\n':
+            pos = rng.randrange(len(text))      # no scanner stops between \r and \n
         if k == 2:
             ln = scanner_lineno(text, pos)
             return [eid, msg + ' expected', fn, [1, 'syntax error', [ln]], [1, text, [ln], pos]]
@@ -951,15 +953,15 @@ def clear_memos():
             if hasattr(v, 'clear') and not callable(v):
                 v.clear()
 
-def _site_of(ex):
+def _sites_of(ex):
     tb = ex.__traceback__
-    site = None
+    out = set()
     while tb is not None:
         fn = tb.tb_frame.f_code.co_filename
         if fn.startswith(PKG) and not fn.endswith(os.sep + 'errors.py'):
-            site = (os.path.relpath(fn, REPO), tb.tb_lineno)
+            out.add((os.path.relpath(fn, REPO), tb.tb_lineno))
         tb = tb.tb_next
-    return site
+    return out
 
 def three_modes(thunk):
     """run one piece of user input under capture / non-strict / strict; return (message or None, sites)"""
@@ -980,9 +982,7 @@ def three_modes(thunk):
                 thunk()
         except PybtexError as ex:
             fatal = ex
-            s = _site_of(ex)
-            if s:
-                sites.add(s)
+            sites.update(_sites_of(ex))
         except Exception as ex:
             foreign = ex
         return lst, fatal, foreign, buf.getvalue(), E.error_code, E.captured_errors
@@ -1167,6 +1167,22 @@ def real_inputs(ck, tier, rng):
         d.add_entry('K', Entry('misc'))
         d.add_entry('k', Entry('misc'))
     yield ('add_entry twice', addtwice)
+    def badxref():
+        d = D.parse_string('@a{k, crossref={zz}, t={x}}\n@a{k2, crossref={zz}}', 'bibtex')
+        return d.add_extra_citations(['k', 'k2'], 2)
+    yield ('bad cross-reference', badxref)
+    yield ('bib nested braces', bib('@a{k, t = ' + '{' * 103 + 'x' + '}' * 103 + '}'))
+    def writer2():
+        from pybtex.database.output.bibtex import Writer
+        return Writer().check_braces('{{test}')
+    yield ('writer check_braces', writer2)
+    def reg():
+        from pybtex.plugin import register_plugin
+        return register_plugin('no.such.group', 'x', object)
+    yield ('register_plugin bad group', reg)
+    yield ('name format eof', lambda: format_name('Donald E. Knuth', '{ff{'))
+    yield ('name format eof 2', lambda: format_name('Donald E. Knuth', '{ff{a}'))
+    yield ('bst warnings', bstrun('ENTRY {title}{}{} FUNCTION {f} { title empty$ { "e" warning$ } { "n" warning$ } if$ } READ ITERATE {f}', BIB))
 
 def instantiate_classes(errcls):
     """one object of every PybtexError subclass found in the source (plus attribute variants)"""
